@@ -74,7 +74,11 @@ func (g *tg) pick(xs []string) string { return xs[g.rng.Intn(len(xs))] }
 
 func (g *tg) ident() T {
 	if g.rng.Intn(8) == 0 {
-		return T{"t": "ident", "q": true, "v": hx(g.pick([]string{"`q`", "`a b`", "`é`", "`if`"}))}
+		return T{"t": "ident", "q": true, "v": hx(g.pick([]string{"`q`", "`a b`", "`é`", "`if`", "`two\nlines`", "`\nx`"}))}
+	}
+	if g.rng.Intn(6) == 0 {
+		// names that begin with (or contain) a keyword: one token, never the keyword plus a rest
+		return T{"t": "ident", "q": false, "v": hx(g.pick([]string{"elsewhere", "elif_seen", "else_count", "iffy", "forx", "inx", "in_", "nil0", "true1", "falsey", "breaks", "continue2", "null_", "Else1", "xif", "a_in"}))}
 	}
 	return T{"t": "ident", "q": false, "v": hx(g.pick([]string{"a", "b", "c", "x1", "_y", "abc", "k"}))}
 }
